@@ -359,6 +359,10 @@ def check(ctx, run):  # noqa: F811
     closed_form_precision_rule(ctx, run, "C07.R7", ["d1", "d2", "ncdf", "npdf", "bs_european_price", "bs_european_binary_price", "bs_american_binary_price", "bs_lookback_price"],
                                "float time to maturity / volatility / strike and constants are not rounded to the default dtype")
     derivative_state_precision(ctx, run)
+    from .c02 import option_classes_use_the_mixin
+    option_classes_use_the_mixin(ctx, run, "C07.R5")  # the state the modules read is the generic option's: no class re-binds those names
+    from ..ctors import rebinding_rule
+    rebinding_rule(ctx, run, "C07.R5", ["pfhedge.nn.modules.bs", "pfhedge.instruments.derivative"], 30)
     from ..ctors import ctor_rule
     ctor_rule(ctx, run, "C07.R8", ["pfhedge.nn.modules.bs." + c for c in ("european.BSEuropeanOption", "lookback.BSLookbackOption", "american_binary.BSAmericanBinaryOption", "european_binary.BSEuropeanBinaryOption")], None,
               "the module prices another contract than the one it was created for")
